@@ -181,7 +181,12 @@ class RuleContext:
         self._base_prog = prog0
         # the tree as written left the group undecided (no finding, only unrecognised constructs): a normal form on which the group
         # is fully decided with a finding reports that finding - the normal forms are behaviour-preserving, so it is one of the tree
-        undecided0 = not any(o.status == "violated" for o in kept[0])
+        # ... and, more generally, when no normal form passes, the findings reported are those of the form (the tree as written
+        # included) that is closest to passing: fewest unrecognised constructs, then fewest findings.  A slip inside a refactoring
+        # is then reported as the slip, not as the shapes the refactoring changed.
+        def badness(obs, n_err):
+            return (n_err + sum(1 for o in obs if o.status == "undecidable"), sum(1 for o in obs if o.status == "violated"))
+        best = badness(kept[0], len(kept[2]))
         decided_v = None
         for v in VARIANTS:
             try:
@@ -202,11 +207,13 @@ class RuleContext:
                                   f"normal form '{v}' (sa/normalize.py)")
                 self.normal_forms_used = getattr(self, "normal_forms_used", 0) + 1
                 return res_v
-            if undecided0 and decided_v is None and len(self.group_errors) == sn[2] \
-                    and not any(o.status == "undecidable" for o in self.obligations[sn[0]:]):
-                decided_v = (self.obligations[sn[0]:], set(self._seen_keys), [], self.floors[sn[3]:], self.exhaustive_spaces[sn[4]:],
-                             self.notes[sn[5]:] + [f"{getattr(fn, '__name__', 'rule group')}: undecided on the tree as written, decided on its "
-                                                   f"normal form '{v}' (sa/normalize.py)"], self.duplicates)
+            b_v = badness(self.obligations[sn[0]:], len(self.group_errors) - sn[2])
+            if b_v < best:
+                best = b_v
+                decided_v = (self.obligations[sn[0]:], set(self._seen_keys), self.group_errors[sn[2]:], self.floors[sn[3]:],
+                             self.exhaustive_spaces[sn[4]:],
+                             self.notes[sn[5]:] + [f"{getattr(fn, '__name__', 'rule group')}: findings are those of the normal form '{v}' "
+                                                   "(sa/normalize.py), the closest to passing"], self.duplicates)
         self._base_prog = outer_base
         self._restore(sn)
         if decided_v is not None:
